@@ -51,4 +51,12 @@ PROPS = {
             {"name": "TestC13", "quick": 600, "thorough": 12000},
         ],
     },
+    "C04": {
+        "level": "exploration",
+        "tests": [
+            {"name": "TestC04A", "quick": 8000, "thorough": 150000, "shards_quick": 6},
+            {"name": "TestC04B", "quick": 12000, "thorough": 200000, "shards_quick": 5},
+            {"name": "TestC04C", "quick": 8000, "thorough": 150000, "shards_quick": 5},
+        ],
+    },
 }
